@@ -30,6 +30,11 @@ CHECKS = {
   text="Every expression of the C01 slices plus a slice with named numeric/string types, sized kinds, dynamic members, retyped literals, fast calls and nested builtins over collections of different element types is evaluated by every variant; all variants that succeed must return equal results and call logs. This pins every place where a static type selects a specialised opcode or rewrite (OpEqualInt/OpEqualString, OpFetchMap, OpCallFast, literal retyping, type-guarded optimizations).",
   note="Trusted: result normal form; only successes are compared, as the property states.",
   ref="DESIGN.md section 4 C15"),
+ "C18": dict(
+  technique="exhaustive enumeration of array expressions x predicates/mappers over '#' x values on the real library with a metamorphic oracle (each defining identity run as two programs and as one expression)",
+  text="For every array expression (members, ranges, literals, filter/map results, and the element of an outer closure) and every predicate over '#' up to a node budget (including predicates that contain builtins over other arrays), in optimized/unoptimized/no-env modes and for every value: all = not any not, none = not any, one = (count = 1), count = len(filter), any = count > 0, len(map) = len, filter idempotent and equal to the element-wise selection, innermost-'#' law, x in a..b = two-sided comparison over integer kinds, xs[:i] ++ xs[i:] = xs for i in -1..len+1 with coinciding failures. No reference values are involved.",
+  note="Trusted: the identities themselves; bounded by node budgets and value domains.",
+  ref="DESIGN.md section 4 C18"),
  "C07": dict(
   technique="explicit-state BFS over run histories on one VM value with the real (*VM).Run as transition function, to a fixpoint of the reachable VM-state set",
   text="Every history over an alphabet of 13 run/configuration operations (trivial, allocating, failing at the first instruction, failing inside nested loops with open scopes, budget exhaustion, longer/shorter programs, map-env after struct-env, panicking call, MemoryBudget changes) is explored breadth-first on one vm.VM value; states are de-duplicated on the hash of ALL VM fields, and the search runs until no new state appears (closed state space) or the depth bound. Every run is compared with a fresh VM. This is exhaustive for the alphabet, which unit tests (that never reuse a VM) cannot be.",
